@@ -13,10 +13,11 @@ Theorem C09_variant_known : variant_known = true.
 Proof. exact (eq_refl true). Qed.
 Print Assumptions C09_variant_known.
 
-(* the variant that merges the includes of each file in declared order: the whole result (tasks in order,
+(* the variant that merges the includes of each file in declared order and stamps include.Dir on a COPY of each
+   variable (v_inplace = false; the variables carry their Dir in the model): the whole result (tasks in order,
    aliases, vars, env, output, error flag) is the same for every topological order and every edge-data order *)
 Theorem C09_det :
-  forall v g pi pi' s s', v_declared v = true -> valid_pi g pi -> valid_pi g pi' ->
+  forall v g pi pi' s s', v_declared v = true -> v_inplace v = false -> valid_pi g pi -> valid_pi g pi' ->
     merge_all v g pi s = merge_all v g pi' s'.
 Proof. exact det_declared. Qed.
 Print Assumptions C09_det.
